@@ -964,6 +964,11 @@ class C12Engine(object):
         print("C12 %s: %d histories, %d regenerations, %d distinct non-trivial states, %d violating histories, "
               "%d harness errors, %.1fs" % (self.tier, st["histories"], st["runs"], len(self.states),
                                             st["violating_histories"], st["harness_errors"], time.time() - self.t0))
+        rej = st["probes"].get("library_rejected", 0)
+        if code == 0 and rej * 4 > max(1, st["histories"]):
+            print("HARNESS-ERROR: the library was rejected by shroud itself in %d of %d histories; the check would be "
+                  "vacuous" % (rej, st["histories"]))
+            return report.EXIT_HARNESS
         if code == 0 and (not ok or st["harness_errors"]):
             print("HARNESS-ERROR: self-tests=%s harness_errors=%d %s" % (self.selftest, st["harness_errors"],
                                                                          self.harness_error_samples[:2]))
